@@ -881,6 +881,9 @@ func genSentence(r *rand.Rand, depth int) string {
 // parenthesis too many or too few).
 func genLong(r *rand.Rand) string {
 	n := 30 + r.Intn(370)
+	if r.Intn(4) == 0 {
+		n = 400 + r.Intn(1500) // no limit on the length of a list or on the number of elements on one level
+	}
 	var sb strings.Builder
 	switch r.Intn(7) {
 	case 0: // flat list
@@ -1367,6 +1370,42 @@ func runC15(cfg *Config) *Report {
 		rep.violate(-1, "tokmap", "token.TokMap", bad)
 	}
 	cf := c14CaseFile()
+	if cfg.Only < 0 {
+		// directed, oracle only: long lists (nothing in the printer or the parser may bound the number of elements on one level)
+		for _, n := range []int{249, 250, 251, 1000, 5000, 20000} {
+			for _, improper := range []bool{false, true} {
+				var e *ast.SExpr
+				if improper {
+					e = ast.NewSymbol("tail")
+				}
+				for k := n - 1; k >= 0; k-- {
+					var a *ast.SExpr
+					switch k % 4 {
+					case 0:
+						a = ast.NewSymbol(fmt.Sprintf("s%d", k))
+					case 1:
+						a = ast.NewInt(int64(-k))
+					case 2:
+						a = ast.NewString(fmt.Sprintf("t %d", k))
+					default:
+						a = ast.NewList(ast.NewSymbol("x"))
+					}
+					e = ast.Cons(a, e)
+				}
+				text, sp := realString(e)
+				p := realParse(text)
+				back := ""
+				if p.kind == 'A' {
+					back, _ = realString(p.tree)
+				}
+				if sp != "" || p.kind != 'A' || back != text {
+					rep.violate(-1, "long-list-roundtrip", fmt.Sprintf("a list of %d elements on one level (improper: %v), printed and parsed", n, improper),
+						fmt.Sprintf("String panicked: %q; Parse outcome %c; printing the parse result gives the same text: %v", sp, p.kind, back == text))
+				}
+			}
+		}
+		rep.hist("directed: lists of 249..20000 elements")
+	}
 	for i := 0; i < cfg.N; i++ {
 		r := newRand(cfg.Seed*1000003 + int64(i))
 		stability := r.Intn(4) == 0
